@@ -587,7 +587,7 @@ class C04(Property):
         "Enum/Constrained valid_values contain None/str/int/bool/date/time natives (Python == on them)",
     ]
     rule = "see generate()"
-    quick_n = 20000
+    quick_n = 40000
     thorough_n = 200000
 
     # ------------------------------------------------------------ cases
